@@ -189,122 +189,149 @@ def kwTO : Bytes := [116, 111, 58]
 
 def cmdIs (name : Bytes) (s : String) : Bool := name == s.toUTF8.toList
 
+/-- `_command_EHLO` / `_command_HELO` -/
+def stepHello (v : Verdicts) (s : St) (isE : Bool) (arg : Option Bytes) : St × List Event × Next :=
+  if !s.bannered then (s, [.reply 503], .continue_)
+  else match arg with
+    | none => (s, [.reply 501], .continue_)
+    | some a =>
+      if a.isEmpty then (s, [.reply 501], .continue_)
+      else if !utf8 a then (s, [.reply 501], .aborted)
+      else
+        let (s1, evs, code) := callback v s (if isE then .ehlo a else .helo a) 250
+        let s2 := if code == 250 then
+            { s1 with haveMail := .unset, haveRcpt := .unset, ehloAs := some a, envelope := none, sessEhlo := some a,
+                      extTls := if isE then s1.extTls else false, extAuth := if isE then s1.extAuth else false,
+                      extSize := if isE then s1.extSize else none }
+          else s1
+        finish s2 evs code
+
+/-- `_command_STARTTLS` up to the handshake -/
+def stepStartTls (v : Verdicts) (s : St) (arg : Option Bytes) : St × List Event × Next :=
+  if !s.extTls then (s, [.reply 500], .continue_)
+  else if arg.isSome then (s, [.reply 501], .continue_)
+  else if s.ehloAs.isNone then (s, [.reply 503], .continue_)
+  else
+    let (s1, evs, code) := callback v s .starttls 220
+    if code == 221 || code == 421 then (s1, evs ++ [.reply code, .cb .close], .closed)
+    else if code == 220 then (s1, evs ++ [.reply 220], .tls)
+    else (s1, evs ++ [.reply code], .continue_)
+
+/-- `_command_AUTH` up to the SASL exchange -/
+def stepAuth (s : St) (arg : Option Bytes) : St × List Event × Next :=
+  if !s.extAuth then (s, [.reply 500], .continue_)
+  else if s.ehloAs.isNone || s.authed || s.haveMail.truthy then (s, [.reply 503], .continue_)
+  else match arg with
+    | none => (s, [.reply 501], .continue_)
+    | some a =>
+      let mech := a.takeWhile fun b => isAlnum b || b == 95 || b == 45
+      let rest := a.dropWhile fun b => isAlnum b || b == 95 || b == 45
+      if mech.isEmpty then (s, [.reply 504], .continue_)
+      else if rest.isEmpty then (s, [], .auth (mech.map upper) none)
+      else match rest with
+        | b :: _ => if isWs b then (s, [], .auth (mech.map upper) (some (rest.dropWhile isWs)))
+                    else (s, [.reply 504], .continue_)
+        | [] => (s, [.reply 504], .continue_)
+
+/-- The accepted part of `_command_MAIL`: callback, reply, flag. -/
+def mailAccepted (v : Verdicts) (s : St) (addr : Bytes) (params : List (Bytes × Option Bytes)) : St × List Event × Next :=
+  let (s1, evs, code) := callback v s (.mail addr params) 250
+  -- the flag is assigned after `_check_close_code`: a closing code leaves it alone
+  let s2 := { s1 with haveMail := if code == 221 || code == 421 then s1.haveMail
+                                  else if s1.haveMail.truthy || code == 250 then .yes else .no,
+                      envelope := if code == 250 then some (addr, []) else s1.envelope }
+  finish s2 evs code
+
+/-- `_command_MAIL` -/
+def stepMail (v : Verdicts) (s : St) (arg : Option Bytes) : St × List Event × Next :=
+  match arg with
+  | none => (s, [.reply 501], .continue_)
+  | some a =>
+    match matchPrefix kwFROM a with
+    | none => (s, [.reply 501], .continue_)
+    | some afterLt =>
+      match splitAddr false afterLt with
+      | none => (s, [.reply 501], .continue_)
+      | some (addr, rest) =>
+        if !utf8 addr then (s, [.reply 501], .aborted)
+        else if s.ehloAs.isNone then (s, [.reply 503], .continue_)
+        else if s.haveMail.truthy then (s, [.reply 503], .continue_)
+        else
+          let params := gatherParams (rest.length + 1) false rest
+          match lookupParam kwSIZE params with
+          | none => mailAccepted v s addr params
+          | some sv =>
+            match sizeValue sv with
+            | none => (s, [.reply 501], .continue_)
+            | some size =>
+              match s.extSize with
+              | none => (s, [.reply 504], .continue_)
+              | some m => if size > m then (s, [.reply 552], .continue_) else mailAccepted v s addr params
+
+/-- `_command_RCPT` -/
+def stepRcpt (v : Verdicts) (s : St) (arg : Option Bytes) : St × List Event × Next :=
+  match arg with
+  | none => (s, [.reply 501], .continue_)
+  | some a =>
+    match matchPrefix kwTO a with
+    | none => (s, [.reply 501], .continue_)
+    | some afterLt =>
+      match splitAddr false afterLt with
+      | none => (s, [.reply 501], .continue_)
+      | some (addr, rest) =>
+        if !utf8 addr then (s, [.reply 501], .aborted)
+        else if !s.haveMail.truthy then (s, [.reply 503], .continue_)
+        else
+          let params := gatherParams (rest.length + 1) false rest
+          let (s1, evs, code) := callback v s (.rcpt addr params) 250
+          let s2 := { s1 with haveRcpt := if code == 221 || code == 421 then s1.haveRcpt
+                                          else if s1.haveRcpt.truthy || code == 250 then .yes else .no,
+                              envelope := if code == 250 then s1.envelope.map (fun (f, r) => (f, r ++ [addr])) else s1.envelope }
+          finish s2 evs code
+
+/-- `_command_DATA` up to reading the message -/
+def stepData (v : Verdicts) (s : St) (arg : Option Bytes) : St × List Event × Next :=
+  if arg.isSome then (s, [.reply 501], .continue_)
+  else if !s.haveMail.truthy || !s.haveRcpt.truthy then (s, [.reply 503], .continue_)
+  else
+    let (s1, evs, code) := callback v s .data 354
+    if code == 221 || code == 421 then (s1, evs ++ [.reply code, .cb .close], .closed)
+    else if code == 354 then (s1, evs ++ [.reply 354], .data)
+    else (s1, evs ++ [.reply code], .continue_)
+
+/-- `_command_RSET` -/
+def stepRset (v : Verdicts) (s : St) (arg : Option Bytes) : St × List Event × Next :=
+  if arg.isSome then (s, [.reply 501], .continue_)
+  else
+    let (s1, evs, code) := callback v s .rset 250
+    let s2 := if code == 250 then { s1 with haveMail := .unset, haveRcpt := .unset } else s1
+    finish { s2 with envelope := none } evs code
+
+def stepNoop (v : Verdicts) (s : St) : St × List Event × Next :=
+  let (s1, evs, code) := callback v s .noop 250
+  finish s1 evs code
+
+def stepQuit (v : Verdicts) (s : St) (arg : Option Bytes) : St × List Event × Next :=
+  if arg.isSome then (s, [.reply 501], .continue_)
+  else
+    let (s1, evs, code) := callback v s .quit 221
+    finish s1 evs code
+
 /-- One received command line (already parsed by `parseCommand`; `none` = no pattern matched). -/
 def step (v : Verdicts) (s : St) (cmd : Option (Bytes × Option Bytes)) : St × List Event × Next :=
   match cmd with
   | none => (s, [.reply 500], .continue_)
   | some (name, arg) =>
-    if cmdIs name "EHLO" || cmdIs name "HELO" then
-      if !s.bannered then (s, [.reply 503], .continue_)
-      else match arg with
-        | none => (s, [.reply 501], .continue_)
-        | some a =>
-          if a.isEmpty then (s, [.reply 501], .continue_)
-          else if !utf8 a then (s, [.reply 501], .aborted)
-          else
-            let isE := cmdIs name "EHLO"
-            let (s1, evs, code) := callback v s (if isE then .ehlo a else .helo a) 250
-            let s2 := if code == 250 then
-                { s1 with haveMail := .unset, haveRcpt := .unset, ehloAs := some a, envelope := none, sessEhlo := some a,
-                          extTls := if isE then s1.extTls else false, extAuth := if isE then s1.extAuth else false,
-                          extSize := if isE then s1.extSize else none }
-              else s1
-            finish s2 evs code
-    else if cmdIs name "STARTTLS" then
-      if !s.extTls then (s, [.reply 500], .continue_)
-      else if arg.isSome then (s, [.reply 501], .continue_)
-      else if s.ehloAs.isNone then (s, [.reply 503], .continue_)
-      else
-        let (s1, evs, code) := callback v s .starttls 220
-        if code == 221 || code == 421 then (s1, evs ++ [.reply code, .cb .close], .closed)
-        else if code == 220 then (s1, evs ++ [.reply 220], .tls)
-        else (s1, evs ++ [.reply code], .continue_)
-    else if cmdIs name "AUTH" then
-      if !s.extAuth then (s, [.reply 500], .continue_)
-      else if s.ehloAs.isNone || s.authed || s.haveMail.truthy then (s, [.reply 503], .continue_)
-      else match arg with
-        | none => (s, [.reply 501], .continue_)
-        | some a =>
-          let mech := a.takeWhile fun b => isAlnum b || b == 95 || b == 45
-          let rest := a.dropWhile fun b => isAlnum b || b == 95 || b == 45
-          if mech.isEmpty then (s, [.reply 504], .continue_)
-          else if rest.isEmpty then (s, [], .auth (mech.map upper) none)
-          else match rest with
-            | b :: _ => if isWs b then (s, [], .auth (mech.map upper) (some (rest.dropWhile isWs)))
-                        else (s, [.reply 504], .continue_)
-            | [] => (s, [.reply 504], .continue_)
-    else if cmdIs name "MAIL" then
-      match arg with
-      | none => (s, [.reply 501], .continue_)
-      | some a =>
-        match matchPrefix kwFROM a with
-        | none => (s, [.reply 501], .continue_)
-        | some afterLt =>
-          match splitAddr false afterLt with
-          | none => (s, [.reply 501], .continue_)
-          | some (addr, rest) =>
-            if !utf8 addr then (s, [.reply 501], .aborted)
-            else if s.ehloAs.isNone then (s, [.reply 503], .continue_)
-            else if s.haveMail.truthy then (s, [.reply 503], .continue_)
-            else
-              let params := gatherParams (rest.length + 1) false rest
-              let go : St × List Event × Next :=
-                let (s1, evs, code) := callback v s (.mail addr params) 250
-                -- the flag is assigned after `_check_close_code`: a closing code leaves it alone
-                let s2 := { s1 with haveMail := if code == 221 || code == 421 then s1.haveMail
-                                                else if s1.haveMail.truthy || code == 250 then .yes else .no,
-                                    envelope := if code == 250 then some (addr, []) else s1.envelope }
-                finish s2 evs code
-              match lookupParam kwSIZE params with
-              | none => go
-              | some sv =>
-                match sizeValue sv with
-                | none => (s, [.reply 501], .continue_)
-                | some size =>
-                  match s.extSize with
-                  | none => (s, [.reply 504], .continue_)
-                  | some m => if size > m then (s, [.reply 552], .continue_) else go
-    else if cmdIs name "RCPT" then
-      match arg with
-      | none => (s, [.reply 501], .continue_)
-      | some a =>
-        match matchPrefix kwTO a with
-        | none => (s, [.reply 501], .continue_)
-        | some afterLt =>
-          match splitAddr false afterLt with
-          | none => (s, [.reply 501], .continue_)
-          | some (addr, rest) =>
-            if !utf8 addr then (s, [.reply 501], .aborted)
-            else if !s.haveMail.truthy then (s, [.reply 503], .continue_)
-            else
-              let params := gatherParams (rest.length + 1) false rest
-              let (s1, evs, code) := callback v s (.rcpt addr params) 250
-              let s2 := { s1 with haveRcpt := if code == 221 || code == 421 then s1.haveRcpt
-                                              else if s1.haveRcpt.truthy || code == 250 then .yes else .no,
-                                  envelope := if code == 250 then s1.envelope.map (fun (f, r) => (f, r ++ [addr])) else s1.envelope }
-              finish s2 evs code
-    else if cmdIs name "DATA" then
-      if arg.isSome then (s, [.reply 501], .continue_)
-      else if !s.haveMail.truthy || !s.haveRcpt.truthy then (s, [.reply 503], .continue_)
-      else
-        let (s1, evs, code) := callback v s .data 354
-        if code == 221 || code == 421 then (s1, evs ++ [.reply code, .cb .close], .closed)
-        else if code == 354 then (s1, evs ++ [.reply 354], .data)
-        else (s1, evs ++ [.reply code], .continue_)
-    else if cmdIs name "RSET" then
-      if arg.isSome then (s, [.reply 501], .continue_)
-      else
-        let (s1, evs, code) := callback v s .rset 250
-        let s2 := if code == 250 then { s1 with haveMail := .unset, haveRcpt := .unset } else s1
-        finish { s2 with envelope := none } evs code
-    else if cmdIs name "NOOP" then
-      let (s1, evs, code) := callback v s .noop 250
-      finish s1 evs code
-    else if cmdIs name "QUIT" then
-      if arg.isSome then (s, [.reply 501], .continue_)
-      else
-        let (s1, evs, code) := callback v s .quit 221
-        finish s1 evs code
+    if cmdIs name "EHLO" then stepHello v s true arg
+    else if cmdIs name "HELO" then stepHello v s false arg
+    else if cmdIs name "STARTTLS" then stepStartTls v s arg
+    else if cmdIs name "AUTH" then stepAuth s arg
+    else if cmdIs name "MAIL" then stepMail v s arg
+    else if cmdIs name "RCPT" then stepRcpt v s arg
+    else if cmdIs name "DATA" then stepData v s arg
+    else if cmdIs name "RSET" then stepRset v s arg
+    else if cmdIs name "NOOP" then stepNoop v s
+    else if cmdIs name "QUIT" then stepQuit v s arg
     else
       -- `_command_custom`: the handler object of the edge has no such method: `500`
       (s, [.reply 500], .continue_)
